@@ -1,11 +1,12 @@
 """C16 - notification hooks fire exactly once and in order around each link change."""
 import json
+import zlib
 
 from lib import gen
 from props import mutcommon as mc
 
 PROP = "C16"
-CORR = "Mut"
+CORR = "Reentry"
 HEADER = mc.HEADER
 CASE_TYPE = "case_mut"
 DRIVER = "corr_C16"
@@ -26,7 +27,7 @@ def gen_and_run(tier, seed):
     for kk in range(1, 4):
         b = mc.exhaustive(kk, classes, False, rng, asrt_every=5, log=True)
         if tier == "quick" and kk == 3:
-            b = [c for i, c in enumerate(b) if i % 5 == (hash(json.dumps(c["op"])) % 5) or c["cls"] == "mixin"]
+            b = [c for i, c in enumerate(b) if i % 5 == (zlib.crc32(json.dumps(c["op"]).encode()) % 5) or c["cls"] == "mixin"]
         base += b
     if tier == "thorough":
         b4 = mc.exhaustive(4, ["mixin", "light"], False, rng, asrt_every=5, log=True, rich=False)
@@ -61,15 +62,39 @@ def literal(c, o):
     return mc.case_lit(c, o)
 
 
-def nontrivial_key(c, o):
+def families(tier, seed):
+    """two correspondence drivers decide C16: the hook logs of the mutation core (hooks observe and may
+    raise) and the re-entrant family (hooks of the moving node detach other nodes)"""
+    import sys
+    from props import c16r
+    cases, obs, meta = gen_and_run(tier, seed)
+    rc, ro, rmeta = c16r.gen_and_run(tier, seed)
+    meta = dict(meta)
+    meta["rule"] = meta["rule"] + " || " + rmeta["rule"]
+    meta["distribution"] = {"main": meta["distribution"], "reentrant": rmeta["distribution"]}
+    fams = [{"name": "main", "mod": sys.modules[__name__], "cases": cases, "obs": obs, "literal": literal},
+            {"name": "reentrant", "mod": c16r, "cases": rc, "obs": ro, "literal": c16r.literal}]
+    return fams, meta
+
+
+def nontrivial_key(w, o):
+    c = w["case"]
+    if w["family"] == "reentrant":
+        from props import c16r
+        k = c16r.nontrivial_key(c, o)
+        return None if k is None else "r" + k
     if not mc.obs_ok(o) or not o.get("nkinds"):
         return None
     return json.dumps([c["cls"], c["heap"], c["op"], c["faults"]])
 
 
-describe = mc.describe
-size = mc.size
+def describe(w, o):
+    return {"family": w["family"], "case": w["case"], "observed": o}
 
 
-def violation_key(c, o):
-    return c["op"][0]
+def size(w):
+    return mc.size(w["case"]) + len(json.dumps(w["case"].get("acts", [])))
+
+
+def violation_key(w, o):
+    return w["family"] + ":" + w["case"]["op"][0]
